@@ -5,6 +5,7 @@
     Pairs.stream                     a Stream over exactly the _pairs list, at 0
     Pairs.__len__ / __getitem__(i)   len(S) / S[i] for -len <= i < len, IndexError otherwise and nothing else
     Pairs.first                      S[0] for a non-empty sequence (IndexError for an empty one)
+    Pairs.find_tagged(label)         the pairs of flatten() tagged `label`, in that order (filter checked for an arbitrary pair)
     Pairs.find_first_tagged(label)   the FIRST pair of flatten() whose tag is `label`, None iff there is none
                                      (flatten at its proved contract; loop invariant NT(i): no match among the first i)
     Stream.next / peek / backup      the obvious cursor semantics, 0 <= pos <= len kept, only `pos` written
@@ -224,6 +225,52 @@ class FindFirstTagged(AccModel):
             run.oblige("result.is_first", z3.And(out.t == F[idx], NT(idx)))
 
 
+class FilterOf:
+    """(x for x in <seq> if <pred x>) with the predicate checked against the Spec's for an arbitrary x"""
+
+    def __init__(self, seq):
+        self.seq = seq
+
+
+class FindTagged(FindFirstTagged):
+    """Pairs.find_tagged(label) = the pairs of flatten() (in that order) whose tag is `label`: the generator expression
+    yields its loop variable unchanged, iterates flatten() of self, and its filter holds for an ARBITRARY pair x exactly when
+    tag(x) == label (campaign 7: `!=` for `==` survived while this accessor had no contract)."""
+
+    target = f"{PAIRS}.find_tagged"
+    loops: dict = {}
+
+    def listcomp(self, run: Run, n):
+        import ast as _ast
+
+        if len(n.generators) != 1 or not isinstance(n.generators[0].target, _ast.Name):
+            return NotImplemented
+        g = n.generators[0]
+        t, ek = run.as_seq(run.eval(g.iter), n, "pair")
+        if ek != "pair":
+            return NotImplemented
+        x = run.fresh("any_pair", "pair")
+        env = run.frame.env
+        had, old = g.target.id in env, env.get(g.target.id)
+        env[g.target.id] = x
+        try:
+            elt = run.eval(n.elt)
+            conds = [run.truth(run.eval(c)) for c in g.ifs]
+        finally:
+            if had:
+                env[g.target.id] = old
+            else:
+                del env[g.target.id]
+        run.oblige("yields_the_pair_itself", isinstance(elt, Sym) and elt.k == "pair" and z3.eq(elt.t, x.t))
+        cond = z3.And(*[c if not isinstance(c, bool) else z3.BoolVal(c) for c in conds]) if conds else z3.BoolVal(True)
+        run.oblige("filter_is_tag_equals_label", cond == (p_tag(x.t) == OptStr.some_s(run.pre["label"])))
+        return FilterOf(t)
+
+    def result(self, run, pre, out):
+        run.oblige("searches_flatten_of_self", pre.get("flatten_called_on_self") is True)
+        run.oblige("result.is_filter_of_flatten", isinstance(out, FilterOf) and z3.is_true(z3.simplify(out.seq == ff(pre["S"]))))
+
+
 class StreamOp(AccModel):
     def __init__(self, method: str):
         self.method = method
@@ -264,4 +311,4 @@ class StreamOp(AccModel):
 
 def specs(tier):
     return [PairText("text"), PairText("__str__"), PairText("as_str"), PairInner("inner"), PairInner("stream"), PairsStream(), PairsLen(), PairsGetItem(), PairsFirst(),
-            FindFirstTagged(), StreamOp("next"), StreamOp("peek"), StreamOp("backup")]
+            FindFirstTagged(), FindTagged(), StreamOp("next"), StreamOp("peek"), StreamOp("backup")]
